@@ -8,8 +8,8 @@ Mirrors, as the code is now in /repo:
   `strip`, outer-parenthesis stripping) and `Track.__prime` / `__double_prime`;
 * `Track.__evaluateRPN` / `Track.__applyOperation` (stack machine, `#k` temporaries, dispatch on
   `=`, literal∘literal, `@`, AF∘AF, AF∘scalar `s+`…, scalar∘AF `sr+`…) and the purge of `Track.operate`;
-* the vector functions of core/operators.py for `+ - * / ^ < >`, `I D D2 ABS SQRT`,
-  `SUM AVG MIN MAX MEDIAN MAD STD` with their NaN / edge rules as coded.
+* the vector functions of core/operators.py for `+ - * / ^ < >`, `I D D2 ABS SQRT LOG DIODE SIGN EXP COS SIN TAN`,
+  `SUM AVG VAR STD MSE RMSE MAD MIN MAX MEDIAN ARGMIN ARGMAX` with their NaN / edge rules as coded.
 
 Python `str` = `List Char`. The feature table is the insertion-ordered association list
 name ↦ column (its index-remapping representation is the subject of C01). Errors are the
@@ -192,6 +192,14 @@ class Scalar (α : Type) where
   ofDec : Nat → Nat → α
   /-- `1e300` -/
   big : α
+  /-- `math.exp` (OverflowError when the result is not representable) -/
+  exp : α → Except Err α := fun _ => .error "err:unsupported"
+  /-- `math.log` on a positive argument (`Log` tests `val > 0` itself) -/
+  log : α → Except Err α := fun _ => .error "err:unsupported"
+  /-- `math.cos`, `math.sin`, `math.tan` (ValueError on an infinite argument) -/
+  cos : α → Except Err α := fun _ => .error "err:unsupported"
+  sin : α → Except Err α := fun _ => .error "err:unsupported"
+  tan : α → Except Err α := fun _ => .error "err:unsupported"
 
 namespace Scalar
 variable {α : Type} [Scalar α]
@@ -202,7 +210,18 @@ def half : α := ofDec 5 1
 def ofNat (n : Nat) : α := ofDec n 0
 /-- Python `0.0 + (bool)` / `float(bool)` -/
 def ofBool (b : Bool) : α := if b then one else zero
+/-- `a <= b` (false as soon as one side is NaN) -/
+def le (a b : α) : Bool := !(lt b a) && !(isNaN a) && !(isNaN b)
 end Scalar
+
+/-- `math.exp`: `OverflowError` ("math range error") when a finite argument gives an infinite result -/
+def floatExp (x : Float) : Except Err Float :=
+  let r := x.exp
+  if r.isInf && x.isFinite then .error "err:OverflowError" else .ok r
+
+/-- `math.cos` / `math.sin` / `math.tan`: `ValueError` ("math domain error") on ±inf, NaN passes through -/
+def floatTrig (f : Float → Float) (x : Float) : Except Err Float :=
+  if x.isInf then .error "err:value" else .ok (f x)
 
 def floatPow (x y : Float) : Except Err Float :=
   if y == 0.0 then .ok 1.0
@@ -229,6 +248,11 @@ instance : Scalar Float where
   nan := 0.0 / 0.0
   ofDec := fun m k => Float.ofScientific m true k
   big := Float.ofScientific 1 false 300
+  exp := floatExp
+  log := fun x => .ok x.log
+  cos := floatTrig Float.cos
+  sin := floatTrig Float.sin
+  tan := floatTrig Float.tan
 
 open Scalar
 
@@ -399,13 +423,28 @@ def diff2 (n : Nat) (c : List α) : List α :=
 /-- Rectifier: `-x * (x < 0) + x * (x > 0)` -/
 def rect (x : α) : α := add (mul (neg x) (ofBool (lt x zero))) (mul x (ofBool (lt zero x)))
 
-def isVoidFn (f : Str) : Bool := f = ['I'] || f = ['D'] || f = ['D', '2'] || f = ['A', 'B', 'S'] || f = ['S', 'Q', 'R', 'T']
+def logName : Str := ['L', 'O', 'G']
+def isVoidFn (f : Str) : Bool :=
+  f = ['I'] || f = ['D'] || f = ['D', '2'] || f = ['A', 'B', 'S'] || f = ['S', 'Q', 'R', 'T']
+    || f = logName || f = ['D', 'I', 'O', 'D', 'E'] || f = ['S', 'I', 'G', 'N'] || f = ['E', 'X', 'P']
+    || f = ['C', 'O', 'S'] || f = ['S', 'I', 'N'] || f = ['T', 'A', 'N']
 /-- does the function read its input column on a track of `n` observations? (reads are per observation) -/
 def voidReads (f : Str) (n : Nat) : Bool :=
   if f = ['I'] || f = ['D'] then decide (2 ≤ n) else if f = ['D', '2'] then decide (3 ≤ n) else decide (1 ≤ n)
+/-- Log: `math.log(val) if val > 0 else 0` -/
+def logAt (x : α) : Except Err α := if lt zero x then log x else .ok zero
+/-- Diode: `x * (x > 0)` -/
+def diode (x : α) : α := mul x (ofBool (lt zero x))
+/-- Sign: `1 * (x >= 0) - 1 * (x < 0)` -/
+def sign (x : α) : α := sub (ofBool (le zero x)) (ofBool (lt x zero))
 def voidFn (f : Str) (n : Nat) (c : List α) : Except Err (List α) :=
   if f = ['I'] then .ok (integ c) else if f = ['D'] then .ok (diff c) else if f = ['D', '2'] then .ok (diff2 n c)
   else if f = ['A', 'B', 'S'] then .ok (c.map rect) else if f = ['S', 'Q', 'R', 'T'] then mapM' sqrt c
+  else if f = logName then mapM' logAt c
+  else if f = ['D', 'I', 'O', 'D', 'E'] then .ok (c.map diode) else if f = ['S', 'I', 'G', 'N'] then .ok (c.map sign)
+  else if f = ['E', 'X', 'P'] then mapM' exp c
+  else if f = ['C', 'O', 'S'] then mapM' cos c else if f = ['S', 'I', 'N'] then mapM' sin c
+  else if f = ['T', 'A', 'N'] then mapM' tan c
   else .error "err:unsupported"
 
 def skipNaN (c : List α) : List α := c.filter (fun v => !isNaN v)
@@ -416,6 +455,12 @@ def avgL (c : List α) : Except Err α :=
   if v.isEmpty then .error "err:zerodiv" else .ok (div (v.foldl add zero) (ofNat v.length))
 def minL (c : List α) : α := c.foldl (fun m v => if lt v m then v else m) big
 def maxL (c : List α) : α := c.foldl (fun m v => if lt m v then v else m) (neg big)
+/-- the loops of Argmin / Argmax: `if val < minimum: minimum = val; idmin = i` from `minimum = 1e300`, `idmin = 0` -/
+def argLoop (better : α → α → Bool) : List α → Nat → α → Nat → Nat
+  | [], _, _, best => best
+  | v :: vs, i, cur, best => if better v cur then argLoop better vs (i + 1) v i else argLoop better vs (i + 1) cur best
+def argminL (c : List α) : α := ofNat (argLoop (fun v m => lt v m) c 0 big 0)
+def argmaxL (c : List α) : α := ofNat (argLoop (fun v m => lt m v) c 0 (neg big) 0)
 /-- order of `np.argsort`: NaN last -/
 def leNaNLast (a b : α) : Bool := if isNaN b then true else if isNaN a then false else !(lt b a)
 def sortL (c : List α) : List α := c.mergeSort leNaNLast
@@ -427,21 +472,37 @@ def middle (c : List α) : Except Err α :=
   else if N % 2 = 0 then .ok (mul half (add (s.getD (N / 2 - 1) nan) (s.getD (N / 2) nan)))
   else .ok (s.getD (N / 2) nan)
 def madL (c : List α) : Except Err α := middle ((skipNaN c).map abs)
-/-- Variance / StdDev -/
-def stdL (c : List α) : Except Err α := do
+/-- Variance: `mean = AVERAGER`, then `var += (x - mean) ** 2` over the non-NaN values, `var / count` -/
+def varL (c : List α) : Except Err α := do
   let m ← avgL c
   let v := skipNaN c
   let sq ← mapM' (fun x => pow (sub x m) two) v
-  sqrt (div (sq.foldl add zero) (ofNat v.length))
+  pure (div (sq.foldl add zero) (ofNat v.length))
+/-- StdDev: `math.sqrt(VARIANCE)` -/
+def stdL (c : List α) : Except Err α := do
+  let v ← varL c
+  sqrt v
+/-- Mse: `mse += x ** 2` over the non-NaN values, `mse / count` (0/0 on integers raises) -/
+def mseL (c : List α) : Except Err α := do
+  let v := skipNaN c
+  let sq ← mapM' (fun x => pow x two) v
+  if v.isEmpty then .error "err:zerodiv" else pure (div (sq.foldl add zero) (ofNat v.length))
+/-- Rmse: `math.sqrt(MSE)` -/
+def rmseL (c : List α) : Except Err α := do
+  let m ← mseL c
+  sqrt m
 
 def isAggFn (f : Str) : Bool :=
   f = ['S', 'U', 'M'] || f = ['A', 'V', 'G'] || f = ['M', 'I', 'N'] || f = ['M', 'A', 'X'] || f = ['M', 'E', 'D', 'I', 'A', 'N']
-    || f = ['M', 'A', 'D'] || f = ['S', 'T', 'D']
+    || f = ['M', 'A', 'D'] || f = ['S', 'T', 'D'] || f = ['V', 'A', 'R'] || f = ['M', 'S', 'E'] || f = ['R', 'M', 'S', 'E']
+    || f = ['A', 'R', 'G', 'M', 'I', 'N'] || f = ['A', 'R', 'G', 'M', 'A', 'X']
 def aggFn (f : Str) (c : List α) : Except Err α :=
   if f = ['S', 'U', 'M'] then .ok (sumL c) else if f = ['A', 'V', 'G'] then avgL c
   else if f = ['M', 'I', 'N'] then .ok (minL c) else if f = ['M', 'A', 'X'] then .ok (maxL c)
   else if f = ['M', 'E', 'D', 'I', 'A', 'N'] then middle c else if f = ['M', 'A', 'D'] then madL c
-  else if f = ['S', 'T', 'D'] then stdL c
+  else if f = ['S', 'T', 'D'] then stdL c else if f = ['V', 'A', 'R'] then varL c
+  else if f = ['M', 'S', 'E'] then mseL c else if f = ['R', 'M', 'S', 'E'] then rmseL c
+  else if f = ['A', 'R', 'G', 'M', 'I', 'N'] then .ok (argminL c) else if f = ['A', 'R', 'G', 'M', 'A', 'X'] then .ok (argmaxL c)
   else .error "err:unsupported"
 
 /-! ## Operator objects through `Track.operate(operator, …)` -/
@@ -481,8 +542,23 @@ def voidInput (t : Tr α) (f inp : Str) : Except Err (List α) :=
 def voidCompute (f inp : Str) (t : Tr α) : Except Err (List α) := do
   let a ← voidInput t f inp
   voidFn f t.n a
+/-- `Log.execute`: the values are computed first and then stored with `track[af_output] = temp`
+    (`updateAnalyticalFeature` when the name is known — a coordinate name then raises KeyError —, else
+    `createAnalyticalFeature` with the list); the method returns nothing -/
+def opLog (tr : Tr α) (inp out : Str) : Res α (List α) :=
+  match voidCompute logName inp tr with
+  | .error e => (.error e, tr)
+  | .ok temp =>
+    if hasAF tr out then
+      match updateAF tr out temp with
+      | .error e => (.error e, tr)
+      | .ok tr1 => (.ok temp, tr1)
+    else
+      match createAF tr out temp with
+      | .error e => (.error e, tr)
+      | .ok tr1 => (.ok temp, tr1)
 def opVoidFn (tr : Tr α) (f : Str) (inp out : Str) : Res α (List α) :=
-  runVoid tr out (voidCompute f inp)
+  if f = logName then opLog tr inp out else runVoid tr out (voidCompute f inp)
 def opAgg (tr : Tr α) (f : Str) (inp : Str) : Except Err α := do
   let a ← getAF tr inp
   aggFn f a
